@@ -177,6 +177,19 @@ CHECKS['C01'] = dict(
          'hypothesis of the per-class theorem, tested exhaustively at 16 bits and on grids. Ten repository defects repaired; four '
          'open findings (header reserved zeroing; Timestamp ns>=1e9 and sec>=2^32-1 encodings).')
 
+CHECKS['C06'] = dict(
+    text='Lean 4 theorems for every buffer, initial value, payload and call sequence: crc.cc\'s table algorithm = bit-serial CRC-32; '
+         'incremental computation at every split point and Python two-step CRC = C++ CalculateCRC(message); every in-range '
+         'encode_message output has the payload\'s type/version, given source, payload size, consecutive sequence numbers mod 2^32 '
+         'and is accepted by validate_crc, the Python decoder, IsValid and the framer\'s CRC compare; affine law; every burst <= 32 '
+         'bits, every alteration of the CRC field and every two altered bits at any distance (polynomial period 2^32-1 proved) are '
+         'rejected by all validators and by the stream decoder, for alterations that leave payload_size_bytes intact. Model tied to '
+         'zlib, the Python classes and the ASan-compiled crc.cc/framer each run.',
+    ref='4 C06', technique='Lean 4 algebraic proof (GF(2) linearity, kernel-evaluated 32x32 bit-matrix powers + Mathlib minimalPeriod) + three-way correspondence',
+    note='Full after fix commits 8878bb6, bf1f3ea. The clause "any altered message is rejected" is false when the alteration hits '
+         'payload_size_bytes (theorem C06_size_field_flip_accepted, open finding C06/size-field-alteration-reframes-a-crc-valid-message); '
+         'such alterations are tested, not proved. Burst = inside one region. zlib.crc32 = CRC-32 is tested, not proved.')
+
 NOT_APPLICABLE = []
 
 
